@@ -17,7 +17,7 @@ pub fn e2e_cases(args: &Args, ncases: u64, stream: u64) -> Acc {
     install_probe_logger();
     let domain: u16 = std::env::var("VERIF_DOMAIN").ok().and_then(|s| s.parse().ok()).unwrap_or(50);
     let mut rng = Rng::derive(seed, stream, i);
-    let sc = if i < ncases { stk2::gen_scenario(&mut rng) } else { pinned_scenario(i - ncases + 1) };
+    let sc = if i < ncases { stk2::gen_scenario(&mut rng) } else { pinned_scenario(PINNED_IDS[(i - ncases) as usize]) };
     if i >= ncases {
       acc.count("e2e_pinned_witness_scenarios_run", 1);
     }
@@ -36,6 +36,8 @@ pub fn e2e_cases(args: &Args, ncases: u64, stream: u64) -> Acc {
     acc.count("e2e_earlier_items_withheld_from_volatile_readers", out.volatile_withheld);
     acc.count("e2e_datagrams_dropped_by_loss_policy", out.dropped);
     acc.count("e2e_endpoints_created_after_a_deletion", out.newcomers);
+    acc.count("e2e_outages_longer_than_the_lease", out.partitions);
+    acc.count("e2e_pairs_unmatched_by_lease_expiry_during_an_outage", out.pairs_lost_in_partition);
     acc.count("e2e_transient_matches_with_deleted_endpoints_taken_back_in_time", out.ghost_matches);
     acc.count("e2e_best_effort_reader_order_or_duplicate_anomalies_not_judged", out.best_effort_order_anomalies);
     // longest wait of the scenario, as a histogram over scenarios (counters are summed over the shards)
@@ -65,7 +67,7 @@ pub fn e2e_cases(args: &Args, ncases: u64, stream: u64) -> Acc {
 pub fn run_c07(args: &Args) -> i32 {
   let mut rep = Report::new(
     args,
-    "two or three real DomainParticipants in one process and domain (real loopback UDP, public API only): participants (started on helper threads), topics, publishers/subscribers, 2-6 readers/writers created in a random dependency-respecting order with random pauses, writers writing before anybody has matched; then every compatible pair must report the match on both sides within 40 s of unstalled time; then values (30 sizes, both sides of the 1024-byte fragment limit, every residue mod 4) and disposals are written under seeded datagram loss of 0-20 % on ALL traffic and every reliable reader must hold what a keep-all writer wrote after the match (keep-last: the last d) - identical bytes, writer order, no duplicates; then a late joiner (TransientLocal: must get the retained history; Volatile: must get nothing written before it existed), possibly on a brand-new participant; then a reader / writer / participant is deleted and every matched peer on another participant must report current_count_change -1; then traffic among the survivors; then (3 scenarios in 4) a new endpoint of the kind that would match what was deleted is created on a surviving participant: it must match every living compatible endpoint, must not report a match with a deleted endpoint whose deletion an endpoint of the same participant has already reported (a match with a deleted endpoint nobody there could observe must be taken back within the unmatch bound), and traffic flows; distinct = hash of scenario; non-trivial = >=2 values compared",
+    "two or three real DomainParticipants in one process and domain (real loopback UDP, public API only): participants (started on helper threads), topics, publishers/subscribers, 2-6 readers/writers created in a random dependency-respecting order with random pauses, writers writing before anybody has matched; then every compatible pair must report the match on both sides within 40 s of unstalled time; then values (30 sizes, both sides of the 1024-byte fragment limit, every residue mod 4) and disposals are written under seeded datagram loss of 0-20 % on ALL traffic and every reliable reader must hold what a keep-all writer wrote after the match (keep-last: the last d) - identical bytes, writer order, no duplicates; then a late joiner (TransientLocal: must get the retained history; Volatile: must get nothing written before it existed), possibly on a brand-new participant; then a reader / writer / participant is deleted and every matched peer on another participant must report current_count_change -1; then traffic among the survivors; in one scenario in six an outage longer than the 10 s lease (every participant, or only one, stops hearing the others: receive-side tap) after the main traffic, after which everybody must be matched with everybody again and traffic must flow; then (3 scenarios in 4) a new endpoint of the kind that would match what was deleted is created on a surviving participant: it must match every living compatible endpoint, must not report a match with a deleted endpoint whose deletion an endpoint of the same participant has already reported (a match with a deleted endpoint nobody there could observe must be taken back within the unmatch bound), and traffic flows; distinct = hash of scenario; non-trivial = >=2 values compared",
   );
   rep.assume("bounds (40 s each for match, delivery, unmatch) are measured in time during which the harness thread itself was being scheduled (steps of at most 100 ms), so a stalled machine cannot produce a verdict; typical waits are printed as counters");
   rep.assume("a KeepAll writer retains at least the last 32 samples for TransientLocal late joiners (the implementation's resource limit); more than that is not demanded");
@@ -103,7 +105,9 @@ fn install_probe_logger() {
 /// check has found (1-3 repaired, 4 open, see known_findings.json).
 /// 1: reader created on a participant that already knows the writer; 2: writer created 4 s after the
 /// peer's reader was announced, late joiner on a new participant; 3: late reader on the writer's own
-/// participant; 4: TransientLocal late joiner next to a Volatile reader that missed the early samples
+/// participant; 4: TransientLocal late joiner next to a Volatile reader that missed the early samples (open);
+/// 5, 6: developer probes; 7: new participant after a writer was deleted; 8: total outage longer than the
+/// lease, then heal; 9: one-sided outage; 10: TransientLocal and Volatile readers side by side under loss (open)
 pub fn pinned_scenario(which: u64) -> stk2::Sc7 {
   use stk2::*;
   let w = EpSpec { part: 0, is_writer: true, reliable: true, tl: false, explicit_durability: true, depth: None };
@@ -124,6 +128,9 @@ pub fn pinned_scenario(which: u64) -> stk2::Sc7 {
       after: vec![(0, Item::Val { key: 1, n: 2, len: 10 })],
       newcomer: None,
       newcomer_items: vec![],
+      partition_s: 0,
+      partition_only: None,
+      healed_items: vec![],
     },
     4 => Sc7 {
       with_key: true,
@@ -151,6 +158,9 @@ pub fn pinned_scenario(which: u64) -> stk2::Sc7 {
       after: vec![(0, Item::Val { key: 1, n: 5, len: 10 })],
       newcomer: None,
       newcomer_items: vec![],
+      partition_s: 0,
+      partition_only: None,
+      healed_items: vec![],
     },
     5 | 6 => Sc7 {
       with_key: true,
@@ -167,6 +177,9 @@ pub fn pinned_scenario(which: u64) -> stk2::Sc7 {
       after: vec![(0, Item::Val { key: 1, n: 3, len: 10 })],
       newcomer: None,
       newcomer_items: vec![],
+      partition_s: 0,
+      partition_only: None,
+      healed_items: vec![],
     },
     7 => Sc7 {
       // a writer is deleted, then a brand-new participant with a reader appears: it must not stay matched with the dead writer
@@ -184,6 +197,69 @@ pub fn pinned_scenario(which: u64) -> stk2::Sc7 {
       after: vec![],
       newcomer: Some(3),
       newcomer_items: vec![],
+      partition_s: 0,
+      partition_only: None,
+      healed_items: vec![],
+    },
+    10 => Sc7 {
+      // the second constellation of the open shared-TopicCache finding: a TransientLocal reader and a Volatile
+      // reader of one TransientLocal writer on one participant, early samples, then traffic under 10 % loss
+      with_key: true,
+      nparts: 2,
+      eps: vec![
+        EpSpec { tl: true, ..w.clone() },
+        EpSpec { tl: true, ..r.clone() },
+        r.clone(),
+        EpSpec { tl: true, ..r.clone() },
+        r.clone(),
+      ],
+      acts: vec![
+        Act::Part(0),
+        Act::Part(1),
+        Act::Topic(0),
+        Act::Topic(1),
+        Act::PubSub(0),
+        Act::PubSub(1),
+        Act::Ep(0),
+        Act::Early(0, (0..6).map(|n| Item::Val { key: n % 3, n, len: if n == 2 { 987 } else { 7 } }).collect()),
+        Act::Ep(1),
+        Act::Sleep(30),
+        Act::Ep(2),
+        Act::Ep(3),
+      ],
+      loss_disc_ppm: 0,
+      loss_ppm: 100_000,
+      main: (6..39).map(|n| (0usize, Item::Val { key: n % 3, n, len: if n % 7 == 0 { 2049 } else { 12 } })).collect(),
+      late: 4,
+      late_new_part: false,
+      post: vec![(0, Item::Val { key: 1, n: 39, len: 10 })],
+      del: Del::Endpoint(3),
+      after: vec![(0, Item::Val { key: 1, n: 40, len: 10 })],
+      newcomer: None,
+      newcomer_items: vec![],
+      partition_s: 0,
+      partition_only: None,
+      healed_items: vec![],
+    },
+    8 | 9 => Sc7 {
+      // total silence for 15 s (lease 10 s), then heal: the pair must match again and traffic must flow
+      with_key: true,
+      nparts: 2,
+      eps: vec![w.clone(), r.clone(), EpSpec { part: 1, ..r.clone() }],
+      acts: vec![Act::Part(0), Act::Part(1), Act::Topic(0), Act::Topic(1), Act::PubSub(0), Act::PubSub(1), Act::Ep(0), Act::Ep(1)],
+      loss_disc_ppm: 0,
+      loss_ppm: 0,
+      main: vec![(0, Item::Val { key: 1, n: 0, len: 10 })],
+      late: 2,
+      late_new_part: false,
+      post: vec![(0, Item::Val { key: 1, n: 2, len: 10 })],
+      del: Del::Endpoint(1),
+      after: vec![],
+      newcomer: None,
+      newcomer_items: vec![],
+      partition_s: 15,
+      partition_only: if which == 9 { Some(1) } else { None },
+      healed_items: vec![(0, Item::Val { key: 1, n: 1, len: 10 })],
     },
     3 => Sc7 {
       with_key: true,
@@ -200,6 +276,9 @@ pub fn pinned_scenario(which: u64) -> stk2::Sc7 {
       after: vec![(0, Item::Val { key: 1, n: 2, len: 10 })],
       newcomer: None,
       newcomer_items: vec![],
+      partition_s: 0,
+      partition_only: None,
+      healed_items: vec![],
     },
     _ => Sc7 {
       with_key: true,
@@ -216,11 +295,16 @@ pub fn pinned_scenario(which: u64) -> stk2::Sc7 {
       after: vec![(0, Item::Val { key: 1, n: 2, len: 10 })],
       newcomer: None,
       newcomer_items: vec![],
+      partition_s: 0,
+      partition_only: None,
+      healed_items: vec![],
     },
   }
 }
 
-pub const PINNED: u64 = 4;
+/// the pinned scenarios that are part of every run (5, 6 and 10 are developer probes only; 10 is an attempt at the second open constellation that does not reproduce it reliably)
+pub const PINNED_IDS: [u64; 7] = [1, 2, 3, 4, 7, 8, 9];
+pub const PINNED: u64 = PINNED_IDS.len() as u64;
 
 /// developer aid: one pinned scenario (VERIF_PROBE=1..4) with optional library logging (VERIF_PROBE_GREP)
 pub fn run_probe(_args: &Args) -> i32 {
